@@ -103,6 +103,8 @@ class FnCache:
         if key not in self.c:
             try:
                 self.c[key] = builder()
+                from harness import cas as _cas
+                _cas.register(self.c[key], key, builder)
             except NotImplementedError as e:
                 self.c[key] = ("notimpl", e)
             except Exception as e:  # construction itself failed (e.g. TypeError inside the library)
